@@ -9,9 +9,10 @@
 
 #include "Point.h"
 
-ezc3d::DataNS::Points3dNS::Point::Point(const std::string &name) :
-    _name(name)
+ezc3d::DataNS::Points3dNS::Point::Point(const std::string &name)
 {
+    // Through the setter, so the name is stored without its trailing spaces, as when it is given later
+    this->name(name);
     _data.resize(4);
 }
 
